@@ -24,6 +24,7 @@ LEVEL_NOTE = ("Tolerance 100*(10*|f(y_returned)| + backward-solver tolerance) re
 RULE = ("seeded sampling over entry point x forward method x family x (n, batch) x backward option x placement x grad-leaf subset x y0 x "
         "y0.requires_grad; non-trivial = forward converged silently, first-order gradients were compared for >= 1 leaf with a non-zero "
         "reference gradient and (unless the case is first-order only) the second-order contraction was compared with a non-zero reference")
+RULE += ("; cotangent classes {random, 1e-10 x random with rescaling, loss quadratic in y}; spy on the solves started inside solve's own backward; a warning of a non-gmres backward solver is a violation; group big (40-64 unknowns, contraction 0.8/0.9, Krylov backward at 1e-10); group late (object holders rebound between two calls, one backward)")
 MIN_NONTRIVIAL = {"quick": 800, "thorough": 6000}
 ASSUMPTIONS = [
     "group big: 40-64 unknowns, contraction constant 0.8 / 0.9 (Jacobian cond <= 19), newton forward, Krylov backward at rtol 1e-10 (needs well over 10 iterations)",
